@@ -4,7 +4,8 @@
     Secs1/BlockProofs.v, Secs1/AssemblerProofs.v; tie to the code: Gen/BridgeSecs1.v (constants,
     translator) + hook differential and e2e against an independent E4 peer (checks/C17.py). *)
 From Coq Require Import ZArith Bool List Lia.
-From GoSecs Require Import Gen.Gen Gen.BridgeSecs1 Secs1.Block Secs1.BlockProofs.
+From GoSecs Require Import Gen.Gen Gen.BridgeSecs1 Secs1.Block Secs1.BlockProofs
+  Secs1.Assembler Secs1.AssemblerProofs.
 Import ListNotations.
 Open Scope Z_scope.
 
@@ -95,6 +96,71 @@ Theorem C17_short_length_undetected :
 Proof. exact short_length_undetected. Qed.
 Print Assumptions C17_short_length_undetected.
 
+(** ** Receive side.  For EVERY inbound sequence of checksum-valid blocks (each with the clock
+    reading and the live T4 of its [accept] call), the frames the assembler delivers are exactly
+    those of [spec_deliveries], the reading of SEMI E4 §9.4 in Secs1/Assembler.v: a block counts
+    only if it carries our device id and is directed to us; a block with the header of the block
+    accepted last is a retransmission; the candidate run is abandoned once T4 has elapsed since its
+    last block; a block is accepted iff the run extended by it — else the block alone — passes the
+    stateless well-formedness predicate [e4_prefix]; a frame = HSMS header from the first block's
+    fields ++ concatenated bodies is delivered iff the accepted block carries the E-bit. *)
+Theorem C17_assembler : forall cfg seq, deliveries cfg seq = spec_deliveries cfg seq.
+Proof. exact assembler_refines_spec. Qed.
+Print Assumptions C17_assembler.
+
+(** [accept] never returns an error (its only error source, assembleFrame on the accumulated
+    blocks, cannot fail), and its effect vocabulary ([aout]) contains nothing that touches the
+    link: malformed, misaddressed, duplicate and out-of-sequence blocks never take the link down. *)
+Theorem C17_assembler_never_errors : forall cfg seq,
+  Forall (fun o => forallb (fun x => negb (is_error x)) o = true) (run_from cfg astate0 seq).
+Proof. exact assembler_never_errors. Qed.
+Print Assumptions C17_assembler_never_errors.
+
+(** Only complete messages are delivered: every delivered frame is [frame_of run] for blocks
+    [run] taken in order from the input, all addressed to us, forming a complete E4 message in the
+    global sense of the property text ([e4_message]: numbered 1..N or a lone block 0, E-bit on
+    exactly the last, one invariant header, every inter-block gap within T4). *)
+Theorem C17_only_complete_messages : forall cfg seq f,
+  In f (deliveries cfg seq) ->
+  exists run, subseq run seq /\ Forall (fun x => addressed cfg x = true) run /\
+              e4_message run /\ f = frame_of run.
+Proof. exact deliveries_sound. Qed.
+Print Assumptions C17_only_complete_messages.
+
+(** Every complete message is delivered, exactly once and byte-identical, whatever preceded it:
+    if after an arbitrary prefix [pre] the segment [seg] carries the blocks of [run] in order —
+    interleaved with any blocks not addressed to us and with retransmissions of the block sent
+    last (arriving within T4 of it) — and [run] is a complete message whose first block is not
+    itself a retransmission of the block accepted last in [pre], then processing [seg] adds
+    exactly the one delivery [frame_of run]. *)
+Theorem C17_complete_message_delivered : forall cfg pre seg run,
+  interleave cfg None seg run -> e4_prefix run = true -> hdr_ebit (e_hdr (last_ev run)) = true ->
+  Forall (fun e => addressed cfg e = true) run ->
+  is_retransmission (last_accepted cfg pre) (hd dflt_ev run) = false ->
+  deliveries cfg (pre ++ seg) = deliveries cfg pre ++ [frame_of run].
+Proof. exact clean_transmission_delivered. Qed.
+Print Assumptions C17_complete_message_delivered.
+
+Theorem C17_e4_message_form : forall run,
+  e4_prefix run = true -> hdr_ebit (e_hdr (last_ev run)) = true -> e4_message run.
+Proof. exact e4_prefix_global. Qed.
+Print Assumptions C17_e4_message_form.
+
+(** Wrong-device and wrong-direction blocks change nothing and deliver nothing; a retransmitted
+    block (header of the block accepted last) delivers nothing. *)
+Theorem C17_not_addressed_ignored : forall cfg st e,
+  addressed cfg e = false ->
+  fst (accept cfg st e) = st /\ deliveries_of (snd (accept cfg st e)) = [] /\
+  forallb (fun x => negb (is_error x)) (snd (accept cfg st e)) = true.
+Proof. exact not_addressed_ignored. Qed.
+Theorem C17_retransmission_dropped : forall cfg st e,
+  a_have_last st = true -> e_hdr e = a_last_hdr st ->
+  deliveries_of (snd (accept cfg st e)) = [] /\
+  a_last_hdr (fst (accept cfg st e)) = a_last_hdr st /\ a_have_last (fst (accept cfg st e)) = true /\
+  (a_open (fst (accept cfg st e)) = true -> fst (accept cfg st e) = st).
+Proof. exact retransmission_dropped. Qed.
+Print Assumptions C17_retransmission_dropped.
+
 (** ** The constants are the ones in the current source. *)
 Theorem C17_bridge_constants :
   Gen.secs1.maxBlockBodySize = max_block_body /\ Gen.secs1.blockHeaderSize = block_header_size /\
@@ -125,4 +191,30 @@ Proof.
   cbn zeta. split; [|vm_compute; reflexivity].
   unfold wf_block, bytes_ok, zlen, max_block_body; cbn.
   repeat split; try lia; repeat (constructor; [unfold byte_ok; lia|]); constructor.
+Qed.
+
+(** Receive side: a garbage prefix (a stray block 2), then a two-block message to an equipment
+    with device id 1, with a foreign block and a retransmission in between — delivered once. *)
+Definition ex_cfg : acfg := {| c_equip := true; c_dev := 1 |}.
+Definition ex_in : mheader :=
+  {| h_dev := 1; h_rbit := false; h_stream := 1; h_func := 3; h_wbit := true; h_sys := [0; 0; 0; 9] |}.
+Definition ex_ev (t : Z) (h : mheader) (num : Z) (last : bool) (body : list Z) : ev :=
+  {| e_time := t; e_t4 := 100; e_blk := {| b_hdr := build_header h num last; b_body := body |} |}.
+Definition ex_b1 := ex_ev 10 ex_in 1 false (repeat 7 244).
+Definition ex_b2 := ex_ev 50 ex_in 2 true [8; 9].
+Definition ex_foreign := ex_ev 20 ex_header 1 true [1].
+Definition ex_dup := ex_ev 30 ex_in 1 false (repeat 7 244).
+Definition ex_stray := ex_ev 0 ex_in 2 true [5].
+Example C17_assembler_nonvacuous :
+  interleave ex_cfg None [ex_b1; ex_foreign; ex_dup; ex_b2] [ex_b1; ex_b2] /\
+  e4_prefix [ex_b1; ex_b2] = true /\
+  is_retransmission (last_accepted ex_cfg [ex_stray]) ex_b1 = false /\
+  deliveries ex_cfg ([ex_stray] ++ [ex_b1; ex_foreign; ex_dup; ex_b2]) =
+    [hsms_header_of ex_in ++ repeat 7 244 ++ [8; 9]] /\
+  deliveries ex_cfg [ex_b1; ex_ev 150 ex_in 2 true [8; 9]] = [] (* T4 = 100 exceeded *).
+Proof.
+  split; [|split; [|split; [|split]]]; try (vm_compute; reflexivity).
+  apply il_run. apply il_foreign; [vm_compute; reflexivity|].
+  apply il_dup; [vm_compute; reflexivity|reflexivity|vm_compute; discriminate|].
+  apply il_run. apply il_nil.
 Qed.
